@@ -16,6 +16,8 @@ HISTORY_TAGS = {
     80: (0, 4),
     100: (6, 4),
     110: (0, 4),
+    130: (1, 4),
+    140: (1, 4),
 }
 
 PROPS = {
@@ -52,6 +54,21 @@ PROPS.update({
         "rule": "tag 110: all histories of depth 4 (thorough: 5) over a 14-symbol abstract alphabet (each of the 8 contributing controllers, a non-contributing controller, a non-CC message, a second channel, reset, a system message) plus seeded random histories over the full alphabet on 1-16 channels; non-trivial = at least one report",
         "exhaustive": {},
         "assumptions": ["feeds use valid short messages"],
+    },
+})
+
+PROPS.update({
+    "C13": {
+        "runs": [("C13", "std", "normal")],
+        "rule": "mock clock. tag 130: histories of feeds/polls/ticks/resets (all depth-4 (thorough 5) sequences over a 14-symbol abstract alphabet after an optional number selection, timeouts 0 and 5; seeded random histories on 1-16 channels with timeouts 0,1,5,1000,2^60 and time steps below/at/above the timeout), only poll results observed; tag 131: the same feeds under two different clocks (results must be equal); tag 132: histories with polls placed before the timeout, run with and without them (they must return nothing and change nothing). non-trivial = some value observed",
+        "exhaustive": {},
+        "assumptions": ["the mock clock (src/verif_hooks.rs) stands in for std::time::Instant; the real clock is assumed monotone"],
+    },
+    "C14": {
+        "runs": [("C14", "std", "normal")],
+        "rule": "mock clock. tag 140: same history generators as C13 (abstract bounded-exhaustive + seeded random over the full alphabet incl. malformed and mixed registered/non-registered traffic, resets, polls, time steps); the implementation's complete trace is judged by the extracted C14 monitor (check_C14), independently of the model; agreement with the model is checked too",
+        "exhaustive": {},
+        "assumptions": ["the mock clock stands in for std::time::Instant"],
     },
 })
 
